@@ -681,4 +681,137 @@ theorem no_link_of_noPush {s : State} {i : Nat}
         omega
     · exact ih hstep ⟨e, he', hne, t, n, ha⟩
 
+/-! ### the tight count: only the OTHER threads' pending pushes cost a round -/
+
+theorem pend_le_sum {l : List Thread} {i : Nat} {th : Thread} (h : l[i]? = some th) :
+    pend th ≤ (l.map pend).sum := by
+  induction l generalizing i with
+  | nil => simp at h
+  | cons a l ih =>
+    cases i with
+    | zero =>
+      simp only [List.getElem?_cons_zero, Option.some.injEq] at h
+      subst h; simp only [List.map_cons, List.sum_cons]; omega
+    | succ i =>
+      simp only [List.getElem?_cons_succ] at h
+      have := ih h
+      simp only [List.map_cons, List.sum_cons]; omega
+
+theorem step_threads_len (s : State) (x : Nat) :
+    (step .addThenStore s x).1.threads.length = s.threads.length := by
+  unfold step
+  cases hxb : s.threads[x]? with
+  | none => rfl
+  | some bx =>
+    dsimp only
+    cases bx.pc <;> (try dsimp only) <;> (try unfold State.popFail) <;> (repeat' split) <;>
+      simp [State.setPc, State.fin]
+
+/-- a step of thread `x` replaces thread `x`'s entry and nothing else -/
+theorem step_threads_eq_set {s : State} {x : Nat} {b : Thread} (hx : s.threads[x]? = some b) :
+    ∃ b', (step .addThenStore s x).1.threads[x]? = some b' ∧
+      (step .addThenStore s x).1.threads = s.threads.set x b' := by
+  have hlt : x < (step .addThenStore s x).1.threads.length := by
+    rw [step_threads_len]; exact lt_of_get hx
+  refine ⟨_, List.getElem?_eq_getElem hlt, ?_⟩
+  apply List.ext_getElem?
+  intro k
+  by_cases ek : k = x
+  · subst ek; rw [List.getElem?_set_self (lt_of_get hx)]; exact List.getElem?_eq_getElem hlt
+  · rw [step_threads_ne' s ek, List.getElem?_set_ne (fun h => ek h.symm)]
+
+def otherLinkCount (i : Nat) (es : List Event) : Nat :=
+  es.countP fun e => decide (e.tid ≠ i) && isLink e.acc
+
+theorem otherLinkCount_cons (i : Nat) (e : Event) (es : List Event) :
+    otherLinkCount i (e :: es) =
+      otherLinkCount i es + (decide (e.tid ≠ i) && isLink e.acc).toNat := by
+  unfold otherLinkCount
+  rw [List.countP_cons]
+  cases (decide (e.tid ≠ i) && isLink e.acc) <;> simp
+
+/-- Pending pushes of the threads OTHER than `i` (`unlinked s - pend th`, `th` = thread `i`)
+go down by exactly the links performed by other threads. -/
+theorem others_step {s : State} {i : Nat} {th : Thread} (hth : s.threads[i]? = some th) (x : Nat) :
+    ∃ th', (step .addThenStore s x).1.threads[i]? = some th' ∧
+      (unlinked (step .addThenStore s x).1 - pend th') +
+          (decide ((step .addThenStore s x).2.tid ≠ i) && isLink (step .addThenStore s x).2.acc).toNat
+        = unlinked s - pend th := by
+  have hstep := unlinked_step s x
+  have hle := pend_le_sum hth
+  rw [step_tid]
+  cases hxb : s.threads[x]? with
+  | none =>
+    have hs : (step .addThenStore s x).1 = s := by unfold step; rw [hxb]
+    have ha : (step .addThenStore s x).2.acc = .none := by unfold step; rw [hxb]
+    refine ⟨th, by rw [hs]; exact hth, ?_⟩
+    rw [hs, ha]; simp [isLink]
+  | some bx =>
+    obtain ⟨b', hb', hset⟩ := step_threads_eq_set hxb
+    by_cases e : x = i
+    · subst e
+      rw [hth] at hxb
+      obtain rfl := Option.some.inj hxb
+      refine ⟨b', hb', ?_⟩
+      have h1 := sum_set hth b'
+      have h2 : pend b' ≤ unlinked (step .addThenStore s x).1 := pend_le_sum hb'
+      simp only [unlinked] at hstep h2 hle ⊢
+      rw [hset] at hstep h2 ⊢
+      simp only [ne_eq, not_true_eq_false, decide_false, Bool.false_and, Bool.toNat_false, Nat.add_zero]
+      omega
+    · have hthi : (step .addThenStore s x).1.threads[i]? = some th := by
+        rw [step_threads_ne' s (fun h => e h.symm)]; exact hth
+      refine ⟨th, hthi, ?_⟩
+      have h2 : pend th ≤ unlinked (step .addThenStore s x).1 := pend_le_sum hthi
+      simp only [unlinked] at hstep h2 hle ⊢
+      have : decide (x ≠ i) = true := by simp [e]
+      rw [this, Bool.true_and]
+      omega
+
+theorem others_run {s : State} {i : Nat} {th : Thread} (hth : s.threads[i]? = some th)
+    (σ : List Nat) :
+    ∃ th', (run .addThenStore s σ).1.threads[i]? = some th' ∧
+      (unlinked (run .addThenStore s σ).1 - pend th') + otherLinkCount i (run .addThenStore s σ).2
+        = unlinked s - pend th := by
+  induction σ generalizing s th with
+  | nil => exact ⟨th, hth, by simp [run, otherLinkCount]⟩
+  | cons x σ ih =>
+    obtain ⟨th1, h1, h2⟩ := others_step hth x
+    obtain ⟨th', h3, h4⟩ := ih h1
+    refine ⟨th', h3, ?_⟩
+    simp only [run]
+    rw [otherLinkCount_cons]
+    omega
+
+theorem otherLinkCount_pos {i : Nat} {es : List Event} (h : OtherLinked i es) :
+    1 ≤ otherLinkCount i es := by
+  obtain ⟨e, he, hne, t, n, ha⟩ := h
+  exact List.countP_pos_iff.mpr ⟨e, he, by rw [ha]; simp [hne, isLink]⟩
+
+/-- TIGHT round bound: more fair rounds than pending pushes of the OTHER threads
+(`unlinked s - pend th`; thread `i`'s own current and future pushes do not count). -/
+theorem push_rounds_tight {s : State} (hI : Inv s) {i : Nat} {th : Thread}
+    (hth : s.threads[i]? = some th) (hin : inPush th.pc = true) (rs : List (List Nat × List Nat))
+    (hfair : ∀ r ∈ rs, FairRound i r) (hlen : unlinked s - pend th < rs.length) :
+    Returned i (run .addThenStore s (flatRounds rs)).2 := by
+  induction rs generalizing s th with
+  | nil => simp at hlen
+  | cons r rs ih =>
+    have hr := hfair r (List.mem_cons_self ..)
+    simp only [flatRounds, List.flatMap_cons]
+    rw [run_append_events]
+    have hround := push_round hI hth hin r.1 r.2
+      (fun j b hj _ => Nat.le_trans (remPub_le_two _) (hr.1 j hj)) hr.2
+    rcases stays_or_returns hI hth hin (r.1 ++ r.2) with hret | ⟨th', h1, h2⟩
+    · exact ⟨hret.choose, List.mem_append_left _ hret.choose_spec.1, hret.choose_spec.2⟩
+    · rcases hround with hret | hlink
+      · exact ⟨hret.choose, List.mem_append_left _ hret.choose_spec.1, hret.choose_spec.2⟩
+      · obtain ⟨th'', h3, h4⟩ := others_run hth (r.1 ++ r.2)
+        rw [h1] at h3
+        obtain rfl := Option.some.inj h3
+        have h5 := otherLinkCount_pos hlink
+        have := ih (inv_run hI _) h1 h2 (fun r' hr' => hfair r' (List.mem_cons_of_mem _ hr'))
+          (by simp only [List.length_cons] at hlen; omega)
+        exact ⟨this.choose, List.mem_append_right _ this.choose_spec.1, this.choose_spec.2⟩
+
 end Golib.C11
